@@ -131,6 +131,9 @@ func run(tapeJSON json.RawMessage, res *core.Result) {
 		conf.Realms["SIM.TEST"] = []string{"10.0.0.1:88"}
 	}
 	conf.PreauthTypes = []int{int(tktIDs[0])}
+	if tp.PreauthPref != 0 && !tp.AssumePreauth {
+		conf.PreauthTypes = []int{tp.PreauthPref}
+	}
 	prev := sim
 	for i := 1; i <= tp.Chain; i++ {
 		realm := fmt.Sprintf("R%d.TEST", i)
@@ -164,6 +167,13 @@ func run(tapeJSON json.RawMessage, res *core.Result) {
 			kv = tp.UserKvno
 		}
 		up = sim.AddKeyUser("alice", kv)
+		if tp.OneKeyOnly && tp.Cred == "keytab" {
+			for et := range up.Keys {
+				if et != int(tktIDs[0]) {
+					delete(up.Keys, et)
+				}
+			}
+		}
 	} else {
 		up = sim.AddPasswordUser("alice", password, tp.Salt, tp.Iter)
 		var ets []int
